@@ -1,4 +1,5 @@
 import SSDriver.C13
+import SSDriver.C10
 /-!
 Line-protocol driver: one JSON object per input line, one output line per input line.
 Run:  lake env lean --run Driver.lean < cases.jsonl
@@ -10,6 +11,7 @@ def dispatch (j : Json) : Except String String := do
   let p ← (← j.getObjVal? "p").getStr?
   match p with
   | "C13" => SS.Drv.C13.handle j
+  | "C10" => SS.Drv.C10.handle j
   | _ => throw s!"unknown property {p}"
 
 partial def loop (h : IO.FS.Stream) (out : IO.FS.Stream) : IO Unit := do
